@@ -316,6 +316,7 @@ func init() {
 			{"copy-complete", "Clone of every trie node kind starts from the whole node or names every field (a restored node that lost a field hashes differently)", func(c *Ctx) { ruleCopyComplete(c, 4, "pkg/core/mpt") }},
 			{"record-kind", "every function that decodes a trie node record (from the store, from a proof, from a peer) refuses the child-only kinds - hash node and empty node - before it uses the node: an empty record panics, a hash-node record makes the loaded node point at itself", func(c *Ctx) { ruleRecordKind(c, "pkg/core/mpt") }},
 			{"ext-next", "whatever the structural code of the trie places under a new extension node (NewExtensionNode, newSubTrie) is known not to be an extension or empty: a concrete leaf/branch, the next of an existing extension, guarded by a failed extension assertion, or a parameter all of whose callers qualify; results of restructuring calls go through mergeExtension", ruleExtNext},
+			{"historic-root", "the read-only tries and trie stores opened over an earlier root (state reads, range searches, proofs) use the store owner's record layout with nothing but the GC flag cleared: a proof built by a trie that does not cut the reference-count suffix off carries five extra bytes per item and does not verify", ruleHistoricRoot},
 			{"proof-key", "VerifyProof walks from NewHashNode(root) over a store of its own in strict mode, and stores every proof element under the double-SHA256 of that very element", ruleProofKey},
 			{"node-switch", "type switches dispatching over trie node kinds cover all five kinds or fail in their default arm", ruleNodeSwitch},
 			{"append-alias", "no append(node.field, ...) in package mpt whose result leaves the field (it would write into the spare capacity a node key shares with the path/batch array it was sliced from)", ruleAppendAlias},
